@@ -246,3 +246,15 @@ package evm
 //@   ensures  [every-slot-row-is-new-storage] forall(j, 0, len(txs), fresh(result[j]))
 //@   loop 0 invariant 0 <= $i && $i <= len(txs) && fresh(q) && len(q) == len(txs)
 //@   loop 0 invariant forall(j, 0, $i, fresh(q[j]))
+
+// read-only queries (C05): a contract call asked for by a client runs on a private state - a copy of the live view or a state
+// opened at the requested height - never on the live committed-state view itself (the EVM raises the caller's nonce and
+// executes stores; on the live view later answers would depend on which queries a replica happened to serve)
+//@ ghost gQState Ref
+//@ func (*EVMApp).queryContract
+//@   props C05
+//@   requires app != nil
+//@   orderonly
+//@   atcall Copy set gQState = result
+//@   atcall New set gQState = result0
+//@   atcall NewEVM assert [queries-run-on-a-private-state] typeIs(arg_statedb, *estate.StateDB) && unbox(arg_statedb, *estate.StateDB) == gQState && calls(Copy) + calls(New) == 1
